@@ -39,6 +39,7 @@ import (
 	"net/url"
 	"os"
 	"path/filepath"
+	"strings"
 	"sync"
 	"sync/atomic"
 	"testing"
@@ -464,7 +465,14 @@ func c15RunEngine(x *h.Ctx, c c15EngCase) {
 		x.Violate("engine:tls-disabled-accepted-in-strict-mode", "Configure accepted a configuration without TLS in strict mode (peers are then not authenticated at all)")
 		return
 	}
-	x.NoErr(engine.Start(), "engine.Start")
+	if serr := engine.Start(); serr != nil {
+		if strings.Contains(serr.Error(), "address already in use") {
+			// the free port found above was taken by another process in the meantime (sixteen checks run at once): no verdict
+			x.Class("skipped:listen-port-taken-by-another-process")
+			return
+		}
+		x.Fatalf("engine.Start: %v", serr)
+	}
 
 	// the private transaction of part (a): for [node, victim]
 	ctx := audit.TestContext()
